@@ -231,9 +231,20 @@ class Program:
             self.files[rel] = rel
             self.sources[rel] = src
         self.inline_findings: list = []
+        self.renamed: dict = {}
         self.inline_log = self._inline_unreviewed_helpers()
         for rel, tree in self.modules.items():
             self._index_module(rel, tree)
+        for old_key, (_rel, new_key) in self.renamed.items():  # the reviewed key keeps resolving (closure moved to module level …)
+            f = self.funcs.get(new_key)
+            if f is None:
+                continue
+            self.funcs.setdefault(old_key, f)
+            if ".<" in old_key:
+                parent_key, nm = old_key.rsplit(".<", 1)
+                parent = self.funcs.get(parent_key)
+                if parent is not None:
+                    parent.nested.setdefault(nm.rstrip(">"), f)
         self.digest = h.hexdigest()
         if len(self.modules) < 40:
             raise AnalysisError(f"only {len(self.modules)} modules parsed (floor 40)")
@@ -241,13 +252,16 @@ class Program:
     def _inline_unreviewed_helpers(self) -> list[str]:
         """functions that are not in the reviewed table are analysed in the context of their callers (sa/inline.py)"""
         from sa.inline import function_keys, inline_unknown_helpers
+        from sa.rename import undo_renames
         from sa.tables.known_functions import KNOWN_FUNCTIONS
+        rlog, self.renamed = undo_renames(self.modules, KNOWN_FUNCTIONS)
         present = {rel: {k for k, *_ in function_keys(tree)} for rel, tree in self.modules.items()}
         known = set()
         unknown = False
+        found_again = {(rel, k) for rel, k in self.renamed.values()}
         for rel, keys in present.items():
             for k in keys:
-                if k in KNOWN_FUNCTIONS.get(rel, ()):
+                if k in KNOWN_FUNCTIONS.get(rel, ()) or (rel, k) in found_again:
                     known.add((rel, k))
                     continue
                 homes = [m for m, ks in KNOWN_FUNCTIONS.items() if k in ks]
@@ -256,12 +270,12 @@ class Program:
                 else:
                     unknown = True
         if not unknown:
-            return []
+            return rlog
         log, self.inline_findings = inline_unknown_helpers(self.modules, known)
         if log:
             for tree in self.modules.values():
                 canonicalise(tree)
-        return log
+        return rlog + log
 
     # ------------------------------------------------------------------ indexing
     def _index_module(self, mod: str, tree: ast.Module) -> None:
